@@ -514,6 +514,8 @@ def gen_cases(ctx):
         nsub = rng.choice([1, 2, 4]) if sub else None
         add("routing", e, int_box(rng, d), exact=True, cf=[], route=dict(method=m, style=style, nsub=nsub, high=(k // len(methods)) % 2 == 1))
     # F. negative integer powers (oracle only; Interval.__pow__ is C05's anchor, the model has natural powers only)
+    add("negpow", ("add", ("npow", ("v", 0), 2), ("v", 1)), [(1.375, 1.875), (3.0, 3.75)],
+        cf=[("direct", None, None), ("endpoints", None, None), ("subinterval", "direct", 2)], nomodel=True)
     for _ in range(ctx.scale(12, 200)):
         d = rng.choice([1, 2])
         box = dyadic_box(rng, d, positive=True)
@@ -708,9 +710,10 @@ def run(ctx: core.Check, cases=None):
                 if mt and mt.startswith("ok"):
                     flat = unql(mt.split()[2])
                     mtiles = [tuple((flat[2 * (k * d + j)], flat[2 * (k * d + j) + 1]) for j in range(d)) for k in range(len(flat) // (2 * d))]
-                    same = len(mtiles) == len(tiles_impl) and all(
+                    teq = lambda u, w: len(u) == len(w) and all(
                         all((F(x) == y) if c["exact"] else abs(F(x) - y) <= tol for p, r in zip(a, b) for x, y in zip(p, r))
-                        for a, b in zip(sorted(tiles_impl), sorted(mtiles)))
+                        for a, b in zip(u, w))
+                    same = teq(tiles_impl, mtiles) or teq(sorted(tiles_impl), sorted(mtiles))   # order is immaterial
                     if same:
                         ctx.tie_ok()
                     else:
